@@ -23,18 +23,31 @@ def split_addr(a):
 
 
 class SymMem:
-    """z3 byte array plus a syntactic cache for same-base addresses (push/pop pairs, [reg+disp] reloads)"""
-    def __init__(self, arr, cache=None):
-        self.arr = arr; self.cache = dict(cache or {})
-    def copy(self): return SymMem(self.arr, self.cache)
+    """z3 byte array for data memory, a syntactic cache for same-base addresses, and -- separately -- the native stack:
+    bytes at addresses of the form (entry RSP + constant) live in a Python map keyed by the constant (push/pop/call/ret
+    slots and RSP/RBP-relative accesses). Accesses through any other address term go to the array and carry the
+    obligation that they do not point into the native stack window (recorded by the executor)."""
+    def __init__(self, arr, cache=None, stack_rid=None, stk=None):
+        self.arr = arr; self.cache = dict(cache or {}); self.stack_rid = stack_rid; self.stk = dict(stk or {})
+    def copy(self): return SymMem(self.arr, self.cache, self.stack_rid, self.stk)
+    def is_stack(self, addr):
+        return self.stack_rid is not None and split_addr(addr)[0] == self.stack_rid
     def load(self, addr, n):
         rid, c = split_addr(addr); bs = []
-        for i in range(n):
-            b = self.cache.get((rid, (c + i) % (1 << 64)))
-            bs.append(b if b is not None else Select(self.arr, addr + i))
+        if rid == self.stack_rid and rid is not None:
+            for i in range(n):
+                b = self.stk.get((c + i) % (1 << 64))
+                bs.append(b if b is not None else Select(self.arr, addr + i))
+        else:
+            for i in range(n):
+                b = self.cache.get((rid, (c + i) % (1 << 64)))
+                bs.append(b if b is not None else Select(self.arr, addr + i))
         return bs[0] if n == 1 else simplify(Concat(*reversed(bs)))
     def store(self, addr, val, n):
         rid, c = split_addr(addr)
+        if rid == self.stack_rid and rid is not None:
+            for i in range(n): self.stk[(c + i) % (1 << 64)] = simplify(Extract(8 * i + 7, 8 * i, val))
+            return
         # bytes cached under another symbolic base may alias this store: drop them (the array stays authoritative)
         self.cache = {k: v for k, v in self.cache.items() if k[0] == rid}
         for i in range(n):
@@ -170,7 +183,7 @@ class X86:
         self.dec = {}; self.max_steps = 4000; self.stats = {'insns': 0, 'sat_calls': 0}
         self.hcall = None        # uninterpreted helper-call function (target, a1..a5) -> result
         self.fresh = 0
-        self.ops_seen = set()
+        self.ops_seen = set(); self.rsp0 = None
     def insn_at(self, ip):
         if ip not in self.dec: self.dec[ip] = decode(self.code, ip)
         return self.dec[ip]
@@ -192,11 +205,14 @@ class X86:
     def ea(self, st, I): return st.r[REGS[I.rm]] + BitVecVal(I.disp, 64)
     def rd_rm(self, st, I, w, kind='read'):
         if I.mod == 3: return self.getr(st, I.rm, w)
-        a = self.ea(st, I); st.log.append((kind, a, w // 8)); return st.mem.load(a, w // 8)
+        a = self.ea(st, I); st.log.append((kind, a, w // 8)); self.note_access(st, a, w // 8); return st.mem.load(a, w // 8)
     def wr_rm(self, st, I, val, w, kind='write'):
         if I.mod == 3: self.setr(st, I.rm, val, w)
         else:
-            a = self.ea(st, I); st.log.append((kind, a, w // 8)); st.mem.store(a, val, w // 8)
+            a = self.ea(st, I); st.log.append((kind, a, w // 8)); self.note_access(st, a, w // 8); st.mem.store(a, val, w // 8)
+    def note_access(self, st, a, n):
+        if st.mem.stack_rid is not None and not st.mem.is_stack(a) and self.rsp0 is not None:
+            st.obligations.append(('data-access-outside-native-stack', Or(ULE(a + n, self.rsp0 - 8192), UGE(a, self.rsp0 + 4096)), st.ip))
     def arith_flags(self, st, op, a, b, r, w):
         msb = lambda x: Extract(w - 1, w - 1, x) == 1
         st.fl['zf'] = r == 0; st.fl['sf'] = msb(r)
@@ -286,6 +302,9 @@ class X86:
             st.r['rax'] = res; self.undef_flags(st)
         elif op == 'ret':
             ra = st.mem.load(st.r['rsp'], 8); st.log.append(('pop', st.r['rsp'], 8)); st.r['rsp'] = st.r['rsp'] + 8
+            ra = simplify(ra)
+            if is_bv_value(ra) and 0 <= ra.as_long() < len(self.code):
+                st.ip = ra.as_long(); return [st]          # return to a code address pushed by a relative call
             st.events.append(('ret', ra)); st.ip = ('ret', ra); return [st]
         else: raise Undecodable('no semantics for ' + op)
         st.ip = nxt
@@ -308,5 +327,5 @@ class X86:
 def fresh_state(tag='', mem=None):
     st = X86State()
     for r in REGS: st.r[r] = BitVec(f'x_{r}{tag}', 64)
-    st.mem = SymMem(mem if mem is not None else Array('M0', BitVecSort(64), BitVecSort(8)))
+    st.mem = SymMem(mem if mem is not None else Array('M0', BitVecSort(64), BitVecSort(8)), stack_rid=split_addr(st.r['rsp'])[0])
     return st
